@@ -87,6 +87,17 @@ pub fn set_crumb(s: &[u8]) {
         }
     });
 }
+/// print `<tag> case=<current breadcrumb>` immediately (unbuffered), for events that must survive a later crash
+pub fn report_now(tag: &str) {
+    CRUMB.with(|c| {
+        let buf = unsafe { &*c.get() };
+        let n = buf.iter().position(|&b| b == 0).unwrap_or(CRUMB_LEN);
+        let line = format!("\n{tag} case={}\n", String::from_utf8_lossy(&buf[..n]));
+        use std::io::Write;
+        let _ = std::io::stdout().write_all(line.as_bytes());
+        let _ = std::io::stdout().flush();
+    });
+}
 /// cheap call event for hot loops: a static tag and one number (no formatting)
 pub fn set_crumb_bits(tag: &'static str, bits: u64) {
     let mut b = [0u8; 64];
